@@ -88,15 +88,24 @@ func VC04Label() {
 	forward := vrt.Choose("forward", 2) == 1
 	gap := c04Gaps[vrt.Choose("gap", len(c04Gaps))]
 	more := vrt.Choose("labelafter", 2) == 1
+	// 32-bit backward layout: optionally a far CALL (rel32, 5 bytes) stands
+	// before the target label, so the label's address depends on how pass 1
+	// sizes that CALL
+	precall := mode == 32 && !forward && vrt.Choose("precall", 2) == 1
 	org := vrt.IntRange("org", 0, 0xf000)
 	var sb subs
 	src := bitsHeader(mode) + "ORG " + lit(org, &sb) + "\n"
 	at := 0
+	pre := 0
 	if forward {
 		src += mn + " target\nRESB " + strconv.Itoa(gap) + "\ntarget:\nDB 0x90\n"
 	} else {
+		if precall {
+			src += "CALL 0x200000\n"
+			pre = 5
+		}
 		src += "target:\nRESB " + strconv.Itoa(gap) + "\n" + mn + " target\n"
-		at = gap
+		at = pre + gap
 	}
 	if more {
 		src += "after:\nDB 0x91\n"
@@ -119,7 +128,7 @@ func VC04Label() {
 		}
 		target = org + int64(pos)
 	} else {
-		target = org
+		target = org + int64(pre)
 	}
 	checkBranch(out, at, mode, org, mn, target, "c04.label")
 }
